@@ -56,6 +56,11 @@ func (cx *Ctx) callChainOf(v ssa.Value) string {
 
 func checkC04(cx *Ctx, r *Report) {
 	w, fx := cx.W, cx.Fx
+	cx.checkRecoverReports(r, cx.handlerScope())
+	cx.checkNoIndentedEncoding(r)
+	// storage is asked with the request's context (which carries the issuer / tenant in effect): keys, providers and
+	// users are those of this request
+	cx.checkStorageContext(r)
 	r.Clauses = []string{
 		"sign before send: a Success response leaves loginResponse only after createSignature returned nil; the attribute-query response is signed in a step before the only emit; signed metadata is returned only after signature.Create returned nil; after a signing call nothing is stored into the signed message except the signature itself",
 		"sign table = send table: the bindings with a delivery case in sendBackResponse are exactly those with a signing case in createSignature; a delivery path that does not discriminate the binding (raw XML body when no consumer URL is known) can only carry the enveloped signature, so it must not be reachable for a binding whose signature is detached",
@@ -610,5 +615,25 @@ func (cx *Ctx) checkKeyPairChecked(r *Report) {
 		r.checkSources("R-VFG", "ParseTlsKeyPair:checked-pair", w.FnPos(pk), ls, []string{"ext:tls.X509KeyPair#0"}, []string{"ext:tls.X509KeyPair#0"}, true)
 	} else {
 		r.Fail("R-VFG", "ParseTlsKeyPair:checked-pair", "", "anchor not found")
+	}
+}
+
+// checkNoIndentedEncoding: signed messages are serialised exactly as they were signed - no Encoder.Indent /
+// MarshalIndent anywhere in the module's serialisers: inserted white space is part of the canonical form of the
+// signed element, the digest no longer matches and the published certificate does not verify the message.
+func (cx *Ctx) checkNoIndentedEncoding(r *Report) {
+	w := cx.W
+	n := 0
+	for _, fn := range w.Funcs {
+		for _, c := range callsIn(fn) {
+			switch calleeName(c) {
+			case "(*encoding/xml.Encoder).Indent", "encoding/xml.MarshalIndent":
+				n++
+				r.Fail("R-C14N", "indent@"+w.FuncKey(fn), w.InstrPos(c), shortCallee(calleeName(c))+" pretty-prints a message when it is written: a message signed before (assertion of an attribute-query response, signed metadata) gets white space inside the signed element and its signature no longer verifies")
+			}
+		}
+	}
+	if n == 0 {
+		r.Ok("R-C14N", "no-indent", "", "no serialiser of the module indents its output")
 	}
 }
